@@ -37,6 +37,9 @@ class _Sub(ast.NodeTransformer):
     def visit_Name(self, n):
         if n.id in self.m and isinstance(n.ctx, ast.Load):
             return _clone(self.m[n.id])
+        if n.id in self.m and isinstance(n.ctx, (ast.Store, ast.Del)) and isinstance(self.m[n.id], ast.Name) \
+                and getattr(self.m[n.id], "_rename", False):
+            return ast.copy_location(ast.Name(id=self.m[n.id].id, ctx=n.ctx), n)
         return n
 
     def visit_Call(self, n):
@@ -72,10 +75,10 @@ def _params(fd, skip_self):
     return ps
 
 
-def _bind(fd, call, skip_self, temps=None):
+def _bind(fd, call, skip_self, temps=None, tail=False):
     """param -> argument AST, or None if the call cannot be bound simply"""
     if isinstance(skip_self, tuple) and skip_self[0] == "recv":
-        m = _bind(fd, call, True, temps)
+        m = _bind(fd, call, True, temps, tail)
         if m is None:
             return None
         # the receiver must not be rebound inside the helper (it is a plain name in the caller)
@@ -120,10 +123,25 @@ def _bind(fd, call, skip_self, temps=None):
                 m[p] = dmap[p]
             else:
                 return None
-    # parameters must not be reassigned inside the helper
-    for n in ast.walk(fd):
-        if isinstance(n, ast.Name) and isinstance(n.ctx, (ast.Store, ast.Del)) and n.id in m:
+    # a parameter that is re-bound inside the helper (`if p is None: p = ...`) becomes a local of the caller that starts
+    # with the argument's value (only where the caller can take statements)
+    stored = sorted({n.id for n in ast.walk(fd) if isinstance(n, ast.Name) and isinstance(n.ctx, (ast.Store, ast.Del)) and n.id in m})
+    if stored:
+        if temps is None:
             return None
+        for p_ in stored:
+            if tail and isinstance(m[p_], ast.Name):
+                # tail call with the caller's own variable as argument: that variable is dead after the call, the
+                # helper's re-binding can use it directly
+                nm_ = ast.Name(id=m[p_].id, ctx=ast.Load())
+                nm_._rename = True
+                m[p_] = nm_
+                continue
+            tn = "%s_arg%d" % (p_, len(temps) + 1)
+            temps.append(ast.Assign(targets=[ast.Name(id=tn, ctx=ast.Store())], value=m[p_]))
+            nm_ = ast.Name(id=tn, ctx=ast.Load())
+            nm_._rename = True
+            m[p_] = nm_
     # a non-trivial argument may be substituted only if the parameter is used at most once; when the caller can take
     # statements (`temps` given) it is evaluated once into a temporary instead
     for p, a in list(m.items()):
@@ -529,6 +547,58 @@ def _thread_results(body):
     return body
 
 
+def _resolve_temps(stmts):
+    """Straight-line resolution of the `<param>_argN` temporaries the binder creates for re-bound parameters:
+    `t = <simple value>` is remembered, `if t is None:` / `if t is not None:` is decided when t's value is a constant
+    or a display (the taken branch is spliced in), later loads of t are replaced by its value, and the temporary's
+    assignments disappear.  Stops (leaves the rest untouched) at the first construct it does not understand."""
+    import re as _re
+
+    def is_temp(nm):
+        return _re.search(r"_arg\d+$", nm) is not None
+
+    def simple(v):
+        return all(isinstance(x, (ast.Constant, ast.Tuple, ast.Name, ast.Attribute, ast.Load)) for x in ast.walk(v))
+
+    def stores_temp(st):
+        return [n.id for n in ast.walk(st) if isinstance(n, ast.Name) and isinstance(n.ctx, ast.Store) and is_temp(n.id)]
+    env = {}
+    out = []
+    work = list(stmts)
+    while work:
+        st = work.pop(0)
+        if isinstance(st, ast.Assign) and len(st.targets) == 1 and isinstance(st.targets[0], ast.Name) and is_temp(st.targets[0].id):
+            v = _Sub({k: v_ for k, v_ in env.items()}).visit(_clone(st.value))
+            if simple(v):
+                env[st.targets[0].id] = v
+                continue
+            env.pop(st.targets[0].id, None)
+            out.append(st)
+            continue
+        if isinstance(st, ast.If) and isinstance(st.test, ast.Compare) and len(st.test.ops) == 1 and isinstance(st.test.left, ast.Name) \
+                and st.test.left.id in env and isinstance(st.test.comparators[0], ast.Constant) and st.test.comparators[0].value is None \
+                and isinstance(st.test.ops[0], (ast.Is, ast.IsNot)):
+            v = env[st.test.left.id]
+            known = None
+            if isinstance(v, ast.Constant):
+                known = v.value is None
+            elif isinstance(v, ast.Tuple):
+                known = False
+            if known is not None:
+                taken = st.body if (known == isinstance(st.test.ops[0], ast.Is)) else st.orelse
+                work = list(taken) + work
+                continue
+        if stores_temp(st):
+            # a store we do not follow (inside a compound statement): give up on those temporaries from here on
+            for t in stores_temp(st):
+                if t in env:
+                    out.append(ast.Assign(targets=[ast.Name(id=t, ctx=ast.Store())], value=env.pop(t)))
+            out.append(st)
+            continue
+        out.append(_Sub(dict(env)).visit(st) if env else st)
+    return out
+
+
 def _ends(block):
     return bool(block) and isinstance(block[-1], (ast.Return, ast.Raise, ast.Continue, ast.Break))
 
@@ -865,10 +935,12 @@ class Evolve:
     def run(self):
         self.super_calls()
         self.container_delegation()
+        self.snapshots()
         self.gen_loops()
         if self.base_fn is not None:
             self.new_constants()
             self.new_parameters()
+            self.const_locals()
             self.new_attr_constants()
             self.statistics()
         if self.count:
@@ -969,6 +1041,55 @@ class Evolve:
                         dg = deleg_of(n.comparators[0], cls.name)
                         if dg and "contains" in dg:
                             n.comparators[0] = wrap(n.comparators[0], dg["contains"])
+
+    # -- iteration over a snapshot; getattr of an attribute every object has
+    def snapshots(self):
+        """`for x in tuple(L)` / `list(L)` / `L[:]` visits the elements of L in order (a snapshot only matters when the
+        body changes L, which the rules check separately): the loop is the loop over L.  `getattr(o, "a", d)` with a
+        constant name that is an attribute of the pinned version's classes reads `o.a` (the default only serves objects
+        that lack it)."""
+        battrs = baseline_attrs() or set()
+        # `peers = tuple(L)` bound once and used only as the thing iterated over
+        for fd in [x for x in ast.walk(self.tree) if isinstance(x, ast.FunctionDef)]:
+            for blk in [x for x in ast.walk(fd) if isinstance(getattr(x, "body", None), list)]:
+                for st in list(blk.body):
+                    if isinstance(st, ast.Assign) and len(st.targets) == 1 and isinstance(st.targets[0], ast.Name) \
+                            and isinstance(st.value, ast.Call) and isinstance(st.value.func, ast.Name) and st.value.func.id in ("tuple", "list") \
+                            and len(st.value.args) == 1 and not st.value.keywords and isinstance(st.value.args[0], (ast.Name, ast.Attribute)):
+                        nm = st.targets[0].id
+                        uses = [x for x in ast.walk(fd) if isinstance(x, ast.Name) and x.id == nm]
+                        iters = [x for x in ast.walk(fd) if isinstance(x, (ast.For, ast.comprehension)) and isinstance(x.iter, ast.Name) and x.iter.id == nm]
+                        if len(uses) == 1 + len(iters) and iters and nm not in (self.base_fn or ()):
+                            for x in iters:
+                                x.iter = _clone(st.value.args[0])
+                            blk.body.remove(st)
+                            if not blk.body:
+                                blk.body.append(ast.Pass())
+                            self.count += 1
+        for n in ast.walk(self.tree):
+            if isinstance(n, (ast.For, ast.comprehension)):
+                it = n.iter
+                if isinstance(it, ast.Call) and isinstance(it.func, ast.Name) and it.func.id in ("tuple", "list") and len(it.args) == 1 \
+                        and not it.keywords and isinstance(it.args[0], (ast.Name, ast.Attribute)):
+                    n.iter = it.args[0]
+                    self.count += 1
+                elif isinstance(it, ast.Subscript) and isinstance(it.slice, ast.Slice) and it.slice.lower is None and it.slice.upper is None \
+                        and it.slice.step is None and isinstance(it.value, (ast.Name, ast.Attribute)):
+                    n.iter = it.value
+                    self.count += 1
+        me = self
+
+        class G(ast.NodeTransformer):
+            def visit_Call(self_, c):
+                self_.generic_visit(c)
+                if isinstance(c.func, ast.Name) and c.func.id == "getattr" and len(c.args) == 3 and not c.keywords \
+                        and isinstance(c.args[1], ast.Constant) and isinstance(c.args[1].value, str) and c.args[1].value in battrs \
+                        and isinstance(c.args[0], (ast.Name, ast.Attribute)) and c.args[1].value.isidentifier():
+                    me.count += 1
+                    return ast.copy_location(ast.Attribute(value=c.args[0], attr=c.args[1].value, ctx=ast.Load()), c)
+                return c
+        for fd in [x for x in ast.walk(self.tree) if isinstance(x, ast.FunctionDef)]:
+            G().visit(fd)
 
     # -- super()
     def super_calls(self):
@@ -1172,7 +1293,13 @@ class Evolve:
                             if not isinstance(c, ast.Call):
                                 continue
                             cn = c.func.attr if isinstance(c.func, ast.Attribute) else c.func.id if isinstance(c.func, ast.Name) else None
-                            if cn != fd.name and not (fd.name == "__init__" and cn == key.split(".")[0]):
+                            if fd.name == "__init__":
+                                # constructor calls `Class(...)` and explicit `Class.__init__(self, ...)` only - other
+                                # classes' __init__ calls are not calls of this function
+                                cls_ = key.split(".")[0]
+                                if not (cn == cls_ or (cn == "__init__" and isinstance(c.func, ast.Attribute) and ast.unparse(c.func.value) == cls_)):
+                                    continue
+                            elif cn != fd.name:
                                 continue
                             for k in c.keywords:
                                 if k.arg is None:
@@ -1181,11 +1308,66 @@ class Evolve:
                                                           and type(k.value.value) is type(dv.value)):
                                     blocked = True
                             extra = 1 if (isinstance(c.func, ast.Attribute) or fd.name == "__init__") and pos and pos[0].arg in ("self", "cls") else 0
-                            if len(c.args) + extra > nposmax or any(isinstance(x, ast.Starred) for x in c.args):
+                            if any(isinstance(x, ast.Starred) for x in c.args):
                                 blocked = True
+                            elif len(c.args) + extra > nposmax:
+                                # positional arguments that reach later-added parameters: harmless only when each of them
+                                # spells out the default of the parameter it lands on
+                                for i_, a_ in enumerate(c.args):
+                                    pi = i_ + extra
+                                    if pi < nposmax:
+                                        continue
+                                    pn = pos[pi].arg if pi < len(pos) else None
+                                    dvp = dflt.get(pn) if pn else None
+                                    if not (isinstance(a_, ast.Constant) and isinstance(dvp, ast.Constant) and a_.value == dvp.value
+                                            and type(a_.value) is type(dvp.value)):
+                                        blocked = True
                     if blocked:
                         continue
                     if any(isinstance(n, ast.Name) and n.id == nm and isinstance(n.ctx, (ast.Store, ast.Del)) for n in ast.walk(fd)):
+                        # the parameter is re-bound in the body (`if p is None: p = DEFAULT`): its default is what it
+                        # holds up to the first statement that stores it; the test of that statement (an `if`) is
+                        # evaluated before the store
+                        for st in fd.body:
+                            has_store = any(isinstance(n, ast.Name) and n.id == nm and isinstance(n.ctx, (ast.Store, ast.Del)) for n in ast.walk(st))
+                            if not has_store:
+                                _Sub({nm: dv}).visit(st)
+                                continue
+                            if isinstance(st, ast.If):
+                                # the chain of tests of an if / elif ladder is evaluated before any branch body runs
+                                cur = st
+                                while True:
+                                    cur.test = _Sub({nm: dv}).visit(cur.test)
+                                    if len(cur.orelse) == 1 and isinstance(cur.orelse[0], ast.If):
+                                        cur = cur.orelse[0]
+                                    else:
+                                        break
+                            break
+                        _Simplify().visit(fd)
+                        fd.body = [x for x in fd.body if not isinstance(x, ast.Pass)] or [ast.Pass()]
+                        # what is left is often `p = CONST` followed by uses: then p IS that constant
+                        st_p = [n for n in ast.walk(fd) if isinstance(n, ast.Name) and n.id == nm and isinstance(n.ctx, (ast.Store, ast.Del))]
+                        top = [x for x in fd.body if isinstance(x, ast.Assign) and len(x.targets) == 1 and isinstance(x.targets[0], ast.Name)
+                               and x.targets[0].id == nm and isinstance(x.value, ast.Constant)]
+                        if len(st_p) == 1 and len(top) == 1:
+                            i_ = fd.body.index(top[0])
+                            before = any(isinstance(n, ast.Name) and n.id == nm for x in fd.body[:i_] for n in ast.walk(x))
+                            if not before:
+                                for x in fd.body[i_ + 1:]:
+                                    _Sub({nm: top[0].value}).visit(x)
+                                del fd.body[i_]
+                        self.count += 1
+                        done.add((key, nm))
+                        progress = True
+                        for c in ast.walk(self.tree):
+                            if isinstance(c, ast.Call):
+                                cn = c.func.attr if isinstance(c.func, ast.Attribute) else c.func.id if isinstance(c.func, ast.Name) else None
+                                if cn == fd.name:
+                                    c.keywords = [k for k in c.keywords if k.arg != nm]
+                                    extra_ = 1 if isinstance(c.func, ast.Attribute) and pos and pos[0].arg in ("self", "cls") else 0
+                                    pidx = [p_.arg for p_ in pos].index(nm) if nm in [p_.arg for p_ in pos] else None
+                                    if pidx is not None and pidx - extra_ == len(c.args) - 1 and pidx >= nposmax:
+                                        c.args = c.args[:-1]
                         continue
                     for st in fd.body:
                         _Sub({nm: dv}).visit(st)
@@ -1196,11 +1378,47 @@ class Evolve:
                             cn = c.func.attr if isinstance(c.func, ast.Attribute) else c.func.id if isinstance(c.func, ast.Name) else None
                             if cn == fd.name or (fd.name == "__init__" and cn == key.split(".")[0]):
                                 c.keywords = [k for k in c.keywords if k.arg != nm]
+                                extra_ = 1 if (isinstance(c.func, ast.Attribute) or fd.name == "__init__") and pos and pos[0].arg in ("self", "cls") else 0
+                                pidx = [p_.arg for p_ in pos].index(nm) if nm in [p_.arg for p_ in pos] else None
+                                if pidx is not None and pidx - extra_ == len(c.args) - 1 and pidx >= nposmax:
+                                    c.args = c.args[:-1]      # the trailing positional default
                     self.count += 1
                     done.add((key, nm))
                     progress = True
             if not progress:
                 break
+
+    # -- locals that hold one constant
+    def const_locals(self):
+        """A local that did not exist at the pinned commit and is bound exactly once, to a constant (typically what is
+        left of `x = A if option else B` once the option was specialised to its default), stands for that constant in
+        the statements that follow its binding in the same block (and in nested blocks)."""
+        for fd in [x for x in ast.walk(self.tree) if isinstance(x, ast.FunctionDef)]:
+            params_ = {a.arg for a in fd.args.args + fd.args.kwonlyargs}
+            for blk in [x for x in ast.walk(fd) if isinstance(getattr(x, "body", None), list)]:
+                for fld in ("body", "orelse", "finalbody"):
+                    body = getattr(blk, fld, None)
+                    if not isinstance(body, list):
+                        continue
+                    i = 0
+                    while i < len(body):
+                        st = body[i]
+                        if isinstance(st, ast.Assign) and len(st.targets) == 1 and isinstance(st.targets[0], ast.Name) \
+                                and isinstance(st.value, ast.Constant) and isinstance(st.value.value, (str, int, bool, bytes, type(None))):
+                            nm = st.targets[0].id
+                            stores = [n for n in ast.walk(fd) if isinstance(n, ast.Name) and n.id == nm and isinstance(n.ctx, (ast.Store, ast.Del))]
+                            uses_elsewhere = [n for n in ast.walk(fd) if isinstance(n, ast.Name) and n.id == nm and isinstance(n.ctx, ast.Load)]
+                            inside = [n for x in body[i + 1:] for n in ast.walk(x) if isinstance(n, ast.Name) and n.id == nm and isinstance(n.ctx, ast.Load)]
+                            if len(stores) == 1 and nm not in params_ and nm not in (self.base_fn or ()) and len(inside) == len(uses_elsewhere) \
+                                    and not any(isinstance(n, (ast.Global, ast.Nonlocal)) for n in ast.walk(fd)):
+                                for x in body[i + 1:]:
+                                    _Sub({nm: st.value}).visit(x)
+                                del body[i]
+                                if not body:
+                                    body.append(ast.Pass())
+                                self.count += 1
+                                continue
+                        i += 1
 
     # -- named constants introduced later
     def new_constants(self):
@@ -1558,6 +1776,13 @@ class Inliner:
             for fd in [n for n in ast.walk(self.tree) if isinstance(n, ast.FunctionDef)]:
                 if getattr(fd, "_inlined_into", False):
                     _Simplify().visit(fd)
+                    # `pass` left over from decided conditions
+                    for blk in [x for x in ast.walk(fd) if isinstance(getattr(x, "body", None), list)]:
+                        for fld in ("body", "orelse", "finalbody"):
+                            b_ = getattr(blk, fld, None)
+                            if isinstance(b_, list) and len(b_) > 1 and any(isinstance(x, ast.Pass) for x in b_):
+                                nb = [x for x in b_ if not isinstance(x, ast.Pass)]
+                                setattr(blk, fld, nb or [ast.Pass()])
         if self.base is not None:
             for fd in [n for n in ast.walk(self.tree) if isinstance(n, ast.FunctionDef)]:
                 self.propagate_attr_aliases(fd)
@@ -1802,10 +2027,13 @@ class Inliner:
                     if t is not None and t[0] is not fd:
                         h, skip = t
                         b = _stmt_form(h)
-                        m = _bind(h, st.value, skip) if b is not None else None
+                        temps0 = []
+                        m = _bind(h, st.value, skip, temps0) if b is not None else None
                         if b is not None and m is not None:
                             self.count += 1
                             fd._inlined_into = True
+                            for t_ in temps0:
+                                out.append(ast.copy_location(t_, st))
                             for s in b:
                                 out.append(_Sub(m).visit(_clone(s)))
                             continue
@@ -2026,10 +2254,13 @@ class Inliner:
                         hb = _body(h)
                         bad = any(isinstance(n, (ast.Yield, ast.YieldFrom, ast.Global, ast.Nonlocal, ast.FunctionDef, ast.Lambda))
                                   for s_ in hb for n in ast.walk(s_))
-                        m = _bind(h, st.value, skip) if not bad else None
+                        temps1 = []
+                        m = _bind(h, st.value, skip, temps1, tail=True) if not bad else None
                         if m is not None:
                             self.count += 1
                             fd._inlined_into = True
+                            for t_ in temps1:
+                                out.append(ast.copy_location(t_, st))
                             for s_ in hb:
                                 out.append(_Sub(m).visit(_clone(s_)))
                             if not (hb and isinstance(hb[-1], (ast.Return, ast.Raise))):
@@ -2039,6 +2270,7 @@ class Inliner:
             return out if (out or not stmts) else [ast.Pass()]
         fd.body = block(fd.body)
         if getattr(fd, "_inlined_into", False):
+            fd.body = _resolve_temps(fd.body) or [ast.Pass()]
             def thread(stmts):
                 stmts = _thread_results(stmts)
                 for st_ in stmts:
